@@ -197,6 +197,8 @@ Released ==
         /\ sl.k = "Est" => st.hnd[e][sl.h].st # "dropped"
         /\ sl.k \in {"Req", "Bind"} => (st.mux[e] => HasCall(st, e, sl.c))
 
+NoOrphanWriter == NoOrphanWriterS(st)
+
 (* C08: once the task is done everything is resolved *)
 DoneResolved ==
   \A e \in E : st.task[e].ph = "done" =>
